@@ -39,6 +39,11 @@ def gen_cases(tier, seed):
             yield Case(e, [x, POISON], [], 'dtc flags after an edited decode')
         yield Case(1905, [x, POISON], [], 'commtype from_byte after an edited decode')
         yield Case(1907, [x, POISON], [], 'dfi from_byte after an edited decode')
+    # an object that already holds flags decodes a new byte (set_byte on a reused object): the result depends on the new byte only
+    for e in (1901, 1902, 1903):
+        for prev in (0xFF, 0x00, 0xE0, 0x1F, 0xA5, 0x5A):
+            for x in range(256):
+                yield Case(e, [x, REUSE, prev], [], 'dtc flags set_byte on a reused object')
     for s in range(-1, 18):
         for n in (0, 1):
             for m in (0, 1):
@@ -67,6 +72,7 @@ def gen_cases(tier, seed):
 
 
 POISON = 777
+REUSE = 778
 
 
 def scramble(obj, depth=0):
@@ -109,6 +115,13 @@ def impl(c):
     e, a = c.entry, c.ints
     if a and a[-1] == POISON and e in (1901, 1902, 1903, 1905, 1907):
         poison(e, a[0])
+    if e in CLS and len(a) == 3 and a[1] == REUSE:
+        cls = getattr(Dtc, CLS[e])
+        fl = fields_of(cls)
+        obj = cls.from_byte(a[2])
+        obj.set_byte(a[0])
+        fresh = cls(*[bool((a[0] >> i) & 1) for i in range(NBITS[e])])
+        return [fresh.get_byte_as_int()] + [enc_bool(getattr(obj, f)) for f in fl]
     if e in CLS:
         cls = getattr(Dtc, CLS[e])
         fl = fields_of(cls)
@@ -158,6 +171,14 @@ def oracle(c, r):
         fl = fields_of(cls)
         x = a[0]
         mask = sum(1 << k for k in bits.values())
+        if len(a) == 3 and a[1] == REUSE:
+            obj = cls.from_byte(a[2])
+            obj.set_byte(x)
+            got = [obj.get_byte_as_int()] + [1 if getattr(obj, f) else 0 for f in fl]
+            want = [x & mask] + [1 if (x >> bits[f]) & 1 else 0 for f in fl]
+            if got != want or r[1:] != want[1:]:
+                return ('flags-reused-object', 'Dtc.%s.from_byte(%#04x) then set_byte(%#04x): re-encodes to %#04x with flags %r' % (name, a[2], x, got[0], got[1:]))
+            return None
         dec = cls.from_byte(x)
         got = {f: getattr(dec, f) for f in fl}
         want = {f: bool((x >> bits[f]) & 1) for f in bits}
